@@ -93,9 +93,13 @@ def run(ctx):
             if r['panicked']: fails.append({'kind': 'toolchain_id_panic', 'detail': f'toolchain id {r["id"]!r} panics in make_lru_key_path (with the cache mutex held on a server)', 'ops': [json.dumps(r)]})
             if r['outside_root']: fails.append({'kind': 'toolchain_id_escape', 'detail': f'toolchain id {r["id"]!r}: {r["outside_root"]}, outside the toolchain cache directory', 'ops': [json.dumps(r)]})
         ctx.evaluations += len(res); ctx.cov['toolchain_ids_probed'] = len(res)
+        # tie of the id check: the real TcCache builds a path for an id exactly when PathsM.validId accepts it
+        if res:
+            open(f'{ctx.work}/ids.trace', 'w').write(''.join(f'{r["hex"]}\t{"true" if r["accepted"] else "false"}\n' for r in res))
+            run_modeld(ctx, 'tcid', f'{ctx.work}/ids.trace', 'toolchain-ids')
         monitor_failures(ctx, fails, findings, 'toolchain id probe', lambda fl: ('monitor-' + fl['kind'], ['real TcCache (harness/src/bin/h_tc.rs ids)', fl['detail']], '\n'.join(fl['ops'])))
     ctx.rules.append('path pairs built from {a, b, .., ., empty, c.o, "x y", ..., ..a, etc, passwd} with 0-4 components, absolute/relative, doubled and trailing slashes; every pair through the real Path::join and '
-                     'join_suffix; 10 adversarial toolchain ids (empty, 1 byte, multi-byte char, absolute, ../, hex)')
+                     'join_suffix; 10 adversarial toolchain ids (empty, 1 byte, multi-byte char, absolute, ../, hex) + 150 generated ones (hex and not, dots, separators-free, non-ASCII) diffed against PathsM.validId')
     ctx.rules.append('real build server: 22 crafted jobs per round (benign, two-job isolation, toolchain alteration, absolute / doubled-slash / .. cwd and outputs, input members with .. / absolute names / symlink then member below / hard link, '
                      'outputs turned into symlinks to host files by the job or by the inputs archive, toolchain carrying a symlink to a host directory); host listing before/after each job and canary files')
     ctx.assumptions += ["tar's own unpack confinement (exercised on the real server, not modelled)", "symbolic links: resolve_inside resolves them with the kernel's canonicalize and applies the same starts_with(root) test; the Lean model is the link-free world"]
